@@ -505,7 +505,7 @@ func ruleEveryFlagBound(c *Check, p *Prog) {
 		if !isVisitor {
 			continue
 		}
-		g := BuildECFG(p, fn, ExpandOpts{MaxDepth: 0})
+		g := BuildECFG(p, fn, ownPkgOpts(configPkg, 2))
 		binds := g.Select(func(x *Node) bool { return strings.HasSuffix(CallName(x), "viper.Viper).BindPFlag") })
 		if len(binds) == 0 {
 			continue // a visitor that is not the binding visitor
